@@ -57,7 +57,7 @@ fn c15a_momt_framing_witness() {
     let mut out = Sink::<80>::new();
     let r = WmoWriter::new().write_materials(&mut out, &m, WmoVersion::Classic);
     assert!(r.is_ok());
-    assert!(size_at(&out, 0) + 8 == out.pos, "MOMT: declared chunk size != bytes written (version below MoP)");
+    assert!(size_at(&out, 0) + 8 == out.pos, "[momt-size] MOMT: declared chunk size != bytes written (version below MoP)");
     std::mem::forget((r, m));
 }
 /// MOMT record as the crate's binrw reader (`parse_wmo`) sees it
@@ -139,31 +139,48 @@ fn c15a_mopr_framing() {
 #[kani::stub(std::fmt::format, vio::fmt_stub)]
 #[kani::unwind(12)]
 fn c15a_portals_framing() {
-    // two portals with 1 and 2 vertices: start indices 0 and 1.  The writer multiplies normal by first vertex (plane
-    // distance): one factor of every product is kept concrete, the other symbolic
-    let p = [WmoPortal { vertices: vec![Vec3 { x: 1.0, y: 0.0, z: 0.0 }], normal: any_vec3() },
-        WmoPortal { vertices: vec![any_vec3(), any_vec3()], normal: Vec3 { x: 0.0, y: 0.0, z: 1.0 } }];
-    let mut out = Sink::<100>::new();
+    // the writer multiplies normal by first vertex (plane distance): one factor of every product is kept concrete
+    let p = [WmoPortal { vertices: vec![any_vec3(), any_vec3()], normal: Vec3 { x: 0.0, y: 0.0, z: 1.0 } }];
+    let mut out = Sink::<64>::new();
     let r = WmoWriter::new().write_portals(&mut out, &p);
     assert!(r.is_ok());
-    kani::cover!(out.pos == 8 + 36 + 8 + 40);
+    kani::cover!(out.pos == 60);
     assert!(tiles(&out, 0, &[b"MOPV", b"MOPT"]), "MOPV/MOPT chunks do not tile the bytes written");
-    assert!(size_at(&out, 0) == 3 * 12, "MOPV payload != vertices x 12");
-    assert!(size_at(&out, 44) == 2 * 20, "MOPT payload != portals x 20");
-    let mut src = Src::<100>::new(out.buf, out.pos);
-    src.pos = 44 + 8;
-    let e0 = MoptEntry::read(&mut src).unwrap();
-    let e = MoptEntry::read(&mut src).unwrap();
-    assert!(e0.start_vertex == 0 && e0.n_vertices == 1, "MOPT vertex range of the first portal is not [0, 1)");
-    assert!(e.start_vertex == 1 && e.n_vertices == 2, "MOPT vertex range of the second portal is not [1, 3)");
-    assert!(v3eq(&p[0].normal, e0.normal.x, e0.normal.y, e0.normal.z) && v3eq(&p[1].normal, e.normal.x, e.normal.y, e.normal.z), "MOPT normal moved");
-    // the vertex the range [1, 3) points at is the second portal's first vertex
-    let mut src = Src::<100>::new(out.buf, out.pos);
-    src.pos = 8 + 12 * 1;
+    assert!(size_at(&out, 0) == 2 * 12, "MOPV payload != vertices x 12");
+    assert!(size_at(&out, 32) == 20, "MOPT payload != portals x 20");
+    let mut src = Src::<64>::new(out.buf, out.pos);
+    src.pos = 8;
     let v = crate::chunks::MopvEntry::read(&mut src).unwrap();
     let v2 = crate::chunks::MopvEntry::read(&mut src).unwrap();
-    assert!(v3eq(&p[1].vertices[0], v.x, v.y, v.z) && v3eq(&p[1].vertices[1], v2.x, v2.y, v2.z), "MOPT vertex range does not address the portal's vertices in MOPV");
-    std::mem::forget((r, p, e0, e, v, v2));
+    src.pos = 40;
+    let e = MoptEntry::read(&mut src).unwrap();
+    assert!(e.start_vertex == 0 && e.n_vertices == 2, "MOPT vertex range is not [0, 2)");
+    assert!(v3eq(&p[0].normal, e.normal.x, e.normal.y, e.normal.z), "MOPT normal moved");
+    // plane distance = normal . first vertex = z of the first vertex for this normal (+0.0 terms keep the bits except for -0.0/NaN)
+    assert!(e.distance.to_bits() == (0.0 * p[0].vertices[0].x + 0.0 * p[0].vertices[0].y + 1.0 * p[0].vertices[0].z).to_bits(), "MOPT plane distance is not normal . vertex");
+    assert!(v3eq(&p[0].vertices[0], v.x, v.y, v.z) && v3eq(&p[0].vertices[1], v2.x, v2.y, v2.z), "MOPV vertices moved");
+    std::mem::forget((r, p, e, v, v2));
+}
+/// vertex ranges of several portals (contents concrete: only the index arithmetic is the subject)
+#[kani::proof]
+#[kani::stub(std::fmt::format, vio::fmt_stub)]
+#[kani::unwind(12)]
+fn c15a_portal_vertex_ranges() {
+    let a = Vec3 { x: 1.0, y: 2.0, z: 3.0 };
+    let b = Vec3 { x: 4.0, y: 5.0, z: 6.0 };
+    let p = [WmoPortal { vertices: vec![a], normal: a }, WmoPortal { vertices: vec![b, a], normal: b }, WmoPortal { vertices: Vec::new(), normal: a },
+        WmoPortal { vertices: vec![b], normal: a }];
+    let mut out = Sink::<160>::new();
+    let r = WmoWriter::new().write_portals(&mut out, &p);
+    assert!(r.is_ok());
+    kani::cover!(out.pos == 8 + 48 + 8 + 80);
+    assert!(tiles(&out, 0, &[b"MOPV", b"MOPT"]) && size_at(&out, 0) == 4 * 12 && size_at(&out, 56) == 4 * 20, "MOPV/MOPT payloads != vertices x 12 / portals x 20");
+    let t = 56 + 8;
+    assert!(u16_at(&out, t) == 0 && u16_at(&out, t + 2) == 1 && u16_at(&out, t + 20) == 1 && u16_at(&out, t + 22) == 2 && u16_at(&out, t + 40) == 3
+        && u16_at(&out, t + 42) == 0 && u16_at(&out, t + 60) == 3 && u16_at(&out, t + 62) == 1, "MOPT vertex ranges are not the running sums of the vertex counts");
+    // portal 3's range [3, 4) addresses its vertex b
+    assert!(u32_at(&out, 8 + 3 * 12) == b.x.to_bits(), "MOPT start vertex does not address the portal's first vertex in MOPV");
+    std::mem::forget((r, p));
 }
 
 // ---- MOVV + MOVB (offset table + 0xFFFF-terminated lists, as this crate's writer and WmoParser define them)
@@ -242,28 +259,46 @@ fn c15a_mods_framing_and_entry() {
 #[kani::stub(std::fmt::format, common::fmt_stub_dd)]
 #[kani::unwind(12)]
 fn c15a_doodad_defs_framing() {
-    let d = [any_doodad(), any_doodad()];
-    let mut out = Sink::<112>::new();
+    let d = [any_doodad()];
+    let mut out = Sink::<64>::new();
     let r = WmoWriter::new().write_doodad_definitions(&mut out, &d, ver_classic_to_mop());
     assert!(r.is_ok());
-    kani::cover!(out.pos == 8 + 6 + 8 + 80);
+    kani::cover!(out.pos == 8 + 3 + 8 + 40);
     assert!(tiles(&out, 0, &[b"MODN", b"MODD"]), "MODN/MODD chunks do not tile the bytes written");
-    assert!(size_at(&out, 0) == 6, "MODN payload != names + terminators");
-    let modd = 8 + 6;
-    assert!(size_at(&out, modd) == 2 * 40, "MODD payload != doodads x 40");
-    let mut src = Src::<112>::new(out.buf, out.pos);
-    src.pos = modd + 8;
-    let e0 = ModdEntry::read(&mut src).unwrap();
+    assert!(size_at(&out, 0) == 3, "MODN payload != names + terminators");
+    assert!(size_at(&out, 11) == 40, "MODD payload != doodads x 40");
+    let mut src = Src::<64>::new(out.buf, out.pos);
+    src.pos = 19;
     let e = ModdEntry::read(&mut src).unwrap();
-    // C15.c: every name offset written into MODD addresses the start of a (non-empty) name inside MODN
-    assert!(e0.name_index() == 0 && out.buf[8] != 0, "MODD name offset of doodad 0 does not address its name in MODN");
-    assert!(e.name_index() == 3 && out.buf[8 + 2] == 0 && out.buf[8 + 3] != 0, "MODD name offset of doodad 1 does not address the start of its name in MODN");
-    let k = &d[1];
+    assert!(e.name_index() == 0 && out.buf[8] != 0 && out.buf[10] == 0, "MODD name offset of doodad 0 does not address its NUL-terminated name in MODN");
+    let k = &d[0];
     assert!(v3eq(&k.position, e.position[0], e.position[1], e.position[2]) && e.scale.to_bits() == k.scale.to_bits(), "MODD position/scale moved");
     assert!(e.color[0] == k.color.b && e.color[1] == k.color.g && e.color[2] == k.color.r && e.color[3] == k.color.a, "MODD colour is not BGRA");
     assert!(e.orientation[0].to_bits() == k.orientation[0].to_bits() && e.orientation[1].to_bits() == k.orientation[1].to_bits()
         && e.orientation[2].to_bits() == k.orientation[2].to_bits() && e.orientation[3].to_bits() == k.orientation[3].to_bits(), "MODD orientation moved");
-    std::mem::forget((r, d, e0, e));
+    std::mem::forget((r, d, e));
+}
+/// C15.c: every name offset written into MODD addresses the start of a name inside MODN (3 doodads, contents concrete)
+#[kani::proof]
+#[kani::stub(std::fmt::format, common::fmt_stub_dd)]
+#[kani::unwind(12)]
+fn c15c_doodad_name_table() {
+    let z = Vec3 { x: 0.0, y: 0.0, z: 0.0 };
+    let mk = |o: u32| WmoDoodadDef { name_offset: o, position: z, orientation: [0.0, 0.0, 0.0, 1.0], scale: 1.0, color: Color::default(), set_index: 0 };
+    let d = [mk(0), mk(0), mk(0)];
+    let mut out = Sink::<160>::new();
+    let r = WmoWriter::new().write_doodad_definitions(&mut out, &d, WmoVersion::Classic);
+    assert!(r.is_ok());
+    kani::cover!(out.pos == 8 + 9 + 8 + 120);
+    assert!(tiles(&out, 0, &[b"MODN", b"MODD"]) && size_at(&out, 0) == 9 && size_at(&out, 17) == 120, "MODN/MODD payloads != names / doodads x 40");
+    let mut i = 0;
+    while i < 3 {
+        let off = (u32_at(&out, 25 + 40 * i) & 0x00FF_FFFF) as usize;
+        assert!(off < 9 && (off == 0 || out.buf[8 + off - 1] == 0) && out.buf[8 + off] != 0, "MODD name offset does not address the start of a name in MODN");
+        assert!(off == 3 * i, "MODD name offsets are not the running sums of the name lengths");
+        i += 1;
+    }
+    std::mem::forget((r, d));
 }
 
 // ---- MOTX / MOGN / MOSB string chunks
@@ -523,7 +558,7 @@ fn c15d_group_header_size_witness() {
     let r = WmoWriter::new().write_group(&mut out, &g, WmoVersion::Classic);
     assert!(r.is_ok());
     let sub = find(&out, 20 + 36, b"MOVT");
-    assert!(sub == 20 + WmoGroupHeader::SIZE, "MOGP: group header written is not the 68 bytes of the format (WmoGroupHeader::SIZE); first sub-chunk misplaced");
+    assert!(sub == 20 + WmoGroupHeader::SIZE, "[mogp-header] MOGP: group header written is not the 68 bytes of the format (WmoGroupHeader::SIZE); first sub-chunk misplaced");
     std::mem::forget((r, g));
 }
 
@@ -537,7 +572,7 @@ fn c15a_mliq_framing_witness() {
     let mut out = Sink::<64>::new();
     let r = WmoWriter::new().write_liquid(&mut out, &l, WmoVersion::Classic);
     assert!(r.is_ok());
-    assert!(size_at(&out, 0) + 8 == out.pos, "MLIQ: declared chunk size != bytes written");
+    assert!(size_at(&out, 0) + 8 == out.pos, "[mliq-size] MLIQ: declared chunk size != bytes written");
     std::mem::forget((r, l));
 }
 
@@ -554,7 +589,7 @@ fn c15a_mobn_vs_entry_witness() {
     src.pos = 8;
     let e = MobnEntry::read(&mut src).unwrap();
     assert!(e.neg_child == 7 && e.pos_child == 9 && e.n_faces == 2 && e.face_start == 3 && e.plane_distance == 5.0 && e.flags == 2,
-        "MOBN: node written by write_bsp_nodes is not read back by MobnEntry (children/faces/distance at other offsets)");
+        "[mobn-layout] MOBN: node written by write_bsp_nodes is not read back by MobnEntry (children/faces/distance at other offsets)");
     std::mem::forget((r, n, e));
 }
 
@@ -572,7 +607,7 @@ fn c15c_mogi_name_offset_witness() {
     assert!(w.write_group_names(&mut names, &g).is_ok() && w.write_group_info(&mut info, &g, WmoVersion::Classic).is_ok());
     // second group's MOGI name offset must address "cd" inside MOGN (offset 3)
     let off = u32_at(&info, 8 + 32 + 28) as usize;
-    assert!(names.buf[8 + off] == b'c', "MOGI: name offset of the second group does not address its name in MOGN");
+    assert!(names.buf[8 + off] == b'c', "[mogi-nameoff] MOGI: name offset of the second group does not address its name in MOGN");
     std::mem::forget(g);
 }
 
@@ -593,7 +628,7 @@ fn c15d_group_legacy_parser_witness() {
     let p = crate::group_parser::WmoGroupParser::new().parse_group(&mut src, 0);
     let ok = p.is_ok();
     std::mem::forget((r, g, p));
-    assert!(ok, "group written by write_group is rejected by WmoGroupParser::parse_group");
+    assert!(ok, "[group-parser-stub] group written by write_group is rejected by WmoGroupParser::parse_group");
 }
 
 /// HAS_SKYBOX in MOHD <=> a MOSB chunk is written, for every version
